@@ -654,3 +654,92 @@ func WithTimeout(d time.Duration, f func()) (returned bool, panicked interface{}
 		return false, nil
 	}
 }
+
+// ---- crash journal and hang watchdog (decoder checks) ---------------------------------
+
+// Journal writes the case about to be executed to this shard's one-entry journal
+// file (in replay-file format). If the process then dies (out of memory, fatal
+// runtime error) the driver replays the journaled case in a fresh process and
+// reports it only if it dies again.
+func Journal(prop, check string, c interface{}) {
+	b, err := json.Marshal(c)
+	if err != nil {
+		return
+	}
+	rf := replayFile{Property: prop, Check: check, Error: "process died while executing this case", Case: b}
+	out, _ := json.Marshal(rf)
+	i, _ := Shard()
+	_ = os.WriteFile(filepath.Join(OutDir(), fmt.Sprintf("journal-%s%d.json", os.Getenv("VERIF_PART_TAG"), i)), out, 0o644)
+}
+
+// ClearJournal removes the journal entry (called after the case completed).
+func ClearJournal() {
+	i, _ := Shard()
+	_ = os.Remove(filepath.Join(OutDir(), fmt.Sprintf("journal-%s%d.json", os.Getenv("VERIF_PART_TAG"), i)))
+}
+
+// Watchdog reports a case that makes no progress for `limit`: it stores the
+// case as a replay candidate, prints the reason and terminates the process with
+// exit status 1 (a hung goroutine cannot be cancelled).
+type Watchdog struct {
+	mu      sync.Mutex
+	prop    string
+	check   string
+	current interface{}
+	detail  string
+	since   time.Time
+	active  bool
+	stop    chan struct{}
+}
+
+// NewWatchdog starts the monitoring goroutine.
+func NewWatchdog(prop, check string, limit time.Duration) *Watchdog {
+	w := &Watchdog{prop: prop, check: check, stop: make(chan struct{})}
+	go func() {
+		tk := time.NewTicker(500 * time.Millisecond)
+		defer tk.Stop()
+		for {
+			select {
+			case <-w.stop:
+				return
+			case <-tk.C:
+				w.mu.Lock()
+				if w.active && time.Since(w.since) > limit {
+					c, d := w.current, w.detail
+					w.mu.Unlock()
+					err := fmt.Errorf("no termination within %v: %s", limit, d)
+					saveReplay(prop, check, c, err)
+					fmt.Printf("--- FAIL: %s/%s violated: %v\n", prop, check, err)
+					WritePart(prop)
+					os.Exit(1)
+				}
+				w.mu.Unlock()
+			}
+		}
+	}()
+	return w
+}
+
+// Begin marks the start of one unit of work on case c.
+func (w *Watchdog) Begin(c interface{}, detail string) {
+	w.mu.Lock()
+	w.current, w.detail, w.since, w.active = c, detail, time.Now(), true
+	w.mu.Unlock()
+}
+
+// Touch restarts the clock for the current case (a new unit of work started).
+func (w *Watchdog) Touch(detail string) {
+	w.mu.Lock()
+	w.detail, w.since = detail, time.Now()
+	w.mu.Unlock()
+}
+
+// End marks the case as finished.
+func (w *Watchdog) End() {
+	w.mu.Lock()
+	w.active = false
+	w.mu.Unlock()
+}
+
+// Stop ends the monitoring goroutine.
+func (w *Watchdog) Stop() { close(w.stop) }
